@@ -16,6 +16,17 @@
 SMOOTH_BEGIN_NAMESPACE
 
 namespace detail {
+
+/**
+ * @brief Switch point (squared argument) between closed form and series for the tails of order >= 4.
+ *
+ * The closed form of an order-k tail subtracts the leading terms of the series from sin / cos, so
+ * its relative rounding error grows like machine epsilon / x^k as x -> 0: at x^2 = eps2 the tails of
+ * order >= 4 have no correct digit left. Their three-term series are exact to machine precision for
+ * x^2 <= 1e-4.
+ */
+static constexpr double eps2_tail = 1e-4;
+
 template<typename S>
 S cos_2(const S & x2)
 {
@@ -47,7 +58,7 @@ S cos_4(const S & x2)
 {
   using std::cos, std::sqrt;
 
-  if (x2 > S(eps2)) {
+  if (x2 > S(eps2_tail)) {
     const S x = sqrt(x2);
     return (cos(x) - S(1) + x2 / S(2)) / (x2 * x2);
   } else {
@@ -60,7 +71,7 @@ S sin_5(const S & x2)
 {
   using std::sin, std::sqrt;
 
-  if (x2 > S(eps2)) {
+  if (x2 > S(eps2_tail)) {
     const S x = sqrt(x2);
     return (sin(x) - x + x2 * x / 6) / (x2 * x2 * x);
   } else {
@@ -74,7 +85,7 @@ S cos_6(const S & x2)
   using std::cos, std::sqrt;
 
   const S x4 = x2 * x2;
-  if (x2 > S(eps2)) {
+  if (x2 > S(eps2_tail)) {
     const S x = sqrt(x2);
     return (cos(x) - S(1) + x2 / S(2) - x4 / S(24)) / (x4 * x2);
   } else {
